@@ -608,10 +608,53 @@ type Atom struct {
 
 // atomsOf decomposes the outcome `val` of condition cond: "a && b" being true makes a and b true, "a || b" being
 // false makes both false (go/ssa compiles these to a phi over constant and right-hand-side edges).
-func atomsOf(cond ssa.Value, val bool, iff *ssa.If, depth int) []Atom {
+func atomsOf(cond ssa.Value, val bool, iff *ssa.If, depth int, known map[siteResult]resultFact) []Atom {
 	v, neg := StripNot(cond)
 	if neg {
 		val = !val
+	}
+	// boolean result of a virtually inlined helper ("valid, err := d.validate(...)"): when only one of the helper's
+	// returns can yield this outcome, the condition is that return's expression
+	if depth <= 4 {
+		var site *ssa.Call
+		ridx := 0
+		switch x := v.(type) {
+		case *ssa.Extract:
+			site, _ = x.Tuple.(*ssa.Call)
+			ridx = x.Index
+		case *ssa.Call:
+			site = x
+		}
+		if site != nil && InlinedCallee(site) != nil {
+			var cand []ssa.Value
+			for _, ret := range Returns(InlinedCallee(site)) {
+				rvs := ReturnValues(ret)
+				if ridx >= len(rvs) {
+					continue
+				}
+				rv := rvs[ridx]
+				if b, isC := ConstBool(rv); isC && b != val {
+					continue // this return yields the other outcome
+				}
+				// a return whose other results contradict what the path is known to have seen of them (err == nil
+				// tested before) is not the one that was taken
+				contradicts := false
+				for j, k := range returnFacts(ret) {
+					if kn, ok := known[siteResult{site, j}]; ok && k != factNone && kn != k {
+						contradicts = true
+					}
+				}
+				if contradicts {
+					continue
+				}
+				cand = append(cand, rv)
+			}
+			if len(cand) == 1 {
+				if _, isC := cand[0].(*ssa.Const); !isC {
+					return atomsOf(cand[0], val, iff, depth+1, known)
+				}
+			}
+		}
 	}
 	ph, ok := v.(*ssa.Phi)
 	if !ok || depth > 4 || (ph.Comment != "&&" && ph.Comment != "||") {
@@ -629,12 +672,12 @@ func atomsOf(cond ssa.Value, val bool, iff *ssa.If, depth int) []Atom {
 			if i < len(ph.Block().Preds) {
 				pred := ph.Block().Preds[i]
 				if pi, ok := pred.Instrs[len(pred.Instrs)-1].(*ssa.If); ok {
-					out = append(out, atomsOf(pi.Cond, and, pi, depth+1)...)
+					out = append(out, atomsOf(pi.Cond, and, pi, depth+1, known)...)
 				}
 			}
 			continue
 		}
-		out = append(out, atomsOf(e, val, iff, depth+1)...)
+		out = append(out, atomsOf(e, val, iff, depth+1, known)...)
 	}
 	return out
 }
@@ -642,10 +685,55 @@ func atomsOf(cond ssa.Value, val bool, iff *ssa.If, depth int) []Atom {
 // GuardAtoms lists the elementary conditions that hold on every path to x (guards with && / || taken apart).
 func GuardAtoms(x ssa.Instruction) []Atom {
 	var out []Atom
-	for _, g := range GuardsOf(x) {
-		out = append(out, atomsOf(g.If.Cond, g.CondTrue(), g.If, 0)...)
+	guards := GuardsOf(x)
+	// what the guards say directly about results of inlined calls
+	known := map[siteResult]resultFact{}
+	for _, g := range guards {
+		v, neg := StripNot(g.If.Cond)
+		val := g.CondTrue()
+		if neg {
+			val = !val
+		}
+		if sr, ok := siteResultOf(v); ok {
+			if val {
+				known[sr] = factTrue
+			} else {
+				known[sr] = factFalse
+			}
+		}
+		if y, nilOnTrue, ok := NilTest(g.If.Cond); ok {
+			if sr, ok := siteResultOf(y); ok {
+				if nilOnTrue == g.CondTrue() {
+					known[sr] = factNil
+				} else {
+					known[sr] = factNonNil
+				}
+			}
+		}
+	}
+	for _, g := range guards {
+		out = append(out, atomsOf(g.If.Cond, g.CondTrue(), g.If, 0, known)...)
 	}
 	return out
+}
+
+type siteResult struct {
+	site *ssa.Call
+	idx  int
+}
+
+func siteResultOf(v ssa.Value) (siteResult, bool) {
+	switch x := v.(type) {
+	case *ssa.Extract:
+		if c, ok := x.Tuple.(*ssa.Call); ok && InlinedCallee(c) != nil {
+			return siteResult{c, x.Index}, true
+		}
+	case *ssa.Call:
+		if InlinedCallee(x) != nil {
+			return siteResult{x, 0}, true
+		}
+	}
+	return siteResult{}, false
 }
 
 // GuardedByErrNil: x executes only when the error result of call c was tested and found nil.
@@ -968,12 +1056,74 @@ func MayBeZeroValue(v ssa.Value) bool {
 
 // localFieldStores: base is a struct value or a pointer to a struct. When it denotes a local variable of a
 // repository function (an Alloc, possibly seen through parameters of virtually inlined helpers, results of inlined
-// calls, phis), the values stored into field number idx of that variable are returned. Fields of objects that
-// are not local (receivers, parameters of anchored functions, globals) yield nothing: their loads stay origins.
+// calls, phis), the values stored into field number idx of that variable - directly or through the parameters
+// of the helpers it is handed to - are returned. Fields of objects that are not local (receivers, parameters of
+// anchored functions, globals) yield nothing: their loads stay origins.
 func localFieldStores(base ssa.Value, idx int, depth int) []ssa.Value {
 	if depth > 3 {
 		return nil
 	}
+	allocs := localAllocsOf(base)
+	if len(allocs) == 0 {
+		return nil
+	}
+	isMine := map[*ssa.Alloc]bool{}
+	for _, a := range allocs {
+		isMine[a] = true
+	}
+	var out []ssa.Value
+	seenFA := map[*ssa.FieldAddr]bool{}
+	collect := func(fa *ssa.FieldAddr) {
+		if seenFA[fa] {
+			return
+		}
+		seenFA[fa] = true
+		for _, r2 := range *fa.Referrers() {
+			if st, ok := r2.(*ssa.Store); ok && st.Addr == fa {
+				out = append(out, st.Val)
+			}
+		}
+	}
+	funcs := map[*ssa.Function]bool{}
+	for _, a := range allocs {
+		for _, r := range *a.Referrers() {
+			if fa, ok := r.(*ssa.FieldAddr); ok && fa.Field == idx {
+				collect(fa)
+			}
+		}
+		// the variable may be handed to helpers that are inlined into the same host(s): their field stores count
+		for _, root := range Roots(a.Parent()) {
+			for _, g := range Body(root) {
+				funcs[g] = true
+			}
+		}
+	}
+	if inl != nil {
+		for g := range funcs {
+			for _, b := range g.Blocks {
+				for _, in := range b.Instrs {
+					fa, ok := in.(*ssa.FieldAddr)
+					if !ok || fa.Field != idx || seenFA[fa] {
+						continue
+					}
+					if _, isAlloc := fa.X.(*ssa.Alloc); isAlloc {
+						continue // a different local, or already handled
+					}
+					for _, a2 := range localAllocsOf(fa.X) {
+						if isMine[a2] {
+							collect(fa)
+							break
+						}
+					}
+				}
+			}
+		}
+	}
+	return out
+}
+
+// localAllocsOf resolves a struct value / struct pointer to the local variables (Allocs) it may denote.
+func localAllocsOf(base ssa.Value) []*ssa.Alloc {
 	var allocs []*ssa.Alloc
 	seen := map[ssa.Value]bool{}
 	var find func(v ssa.Value, d int)
@@ -987,9 +1137,7 @@ func localFieldStores(base ssa.Value, idx int, depth int) []ssa.Value {
 			allocs = append(allocs, x)
 		case *ssa.UnOp:
 			if x.Op == token.MUL {
-				// a struct value loaded from a local variable
 				if a, ok := x.X.(*ssa.Alloc); ok {
-					// either the variable holds the struct itself, or a pointer that was stored into it
 					allocs = append(allocs, a)
 					for _, r := range *a.Referrers() {
 						if st, ok := r.(*ssa.Store); ok && st.Addr == a {
@@ -1025,19 +1173,5 @@ func localFieldStores(base ssa.Value, idx int, depth int) []ssa.Value {
 		}
 	}
 	find(base, 0)
-	var out []ssa.Value
-	for _, a := range allocs {
-		for _, r := range *a.Referrers() {
-			fa, ok := r.(*ssa.FieldAddr)
-			if !ok || fa.Field != idx {
-				continue
-			}
-			for _, r2 := range *fa.Referrers() {
-				if st, ok := r2.(*ssa.Store); ok && st.Addr == fa {
-					out = append(out, st.Val)
-				}
-			}
-		}
-	}
-	return out
+	return allocs
 }
